@@ -424,6 +424,8 @@ def tstr(t, depth=0):
     if k == "closure":
         return "closure<%s>" % t[1].split("::", 1)[-1]
     if k == "call":
+        if depth > 0:
+            return "%s#%s" % (t[1].split("::")[-1], t[3])
         return "%s#%s(%s)" % (t[1].split("::", 1)[-1], t[3], ", ".join(tstr(x, d) for x in t[2]))
     if k == "pure":
         return "%s(%s)" % (t[1], ", ".join(tstr(x, d) for x in t[2]))
